@@ -15,9 +15,11 @@
 (* of a preceding option that takes one; ssh keeps scanning options after   *)
 (* its first operand, scp stops at the first operand, docker exec stops at  *)
 (* the first operand, docker cp permutes.                                   *)
-(* Property: in every command the target / container is the operand the     *)
-(* program expects there, and the Docker user is the value of --user; a URL *)
-(* that cannot satisfy this is rejected before any command.                 *)
+(* Property: in every command the word that carries the URL component is an *)
+(* operand (the Docker user: the value of --user) and carries the component *)
+(* text unchanged; a URL that cannot satisfy this is rejected before any    *)
+(* command.  Components range over text with '-', '@', '/', 'o' and the     *)
+(* white space characters (space, TAB, LF) that a Trim* would remove.       *)
 (***************************************************************************)
 EXTENDS UrlText
 
@@ -58,40 +60,65 @@ Scan(args, i, spec, ops, pairs) ==
     ELSE Scan(args, i + 1, spec, Append(ops, a), pairs)
 
 \* ---------------------------------------------------------------- the property on one command
-\* args: the argument vector without argv[0]; everything else: plain strings.
+\* args: the argument vector without argv[0] AS IT ARRIVES at the program; everything else: plain strings
+\* (x.user, x.host: the components of the validated URL message).  Two statements per command:
+\*   ...Operand : the operand structure is the expected one - the word that carries the component sits
+\*                in an operand position and the fixed operands (command, source, words) are in place;
+\*   ...Intact  : that word is exactly the text composed from the URL's components (nothing was trimmed,
+\*                re-cased, unquoted or otherwise normalised on the way).
 TargetStr(user, host) == IF user = "" THEN host ELSE user \o "@" \o host
 \* the user may travel in the target ("user@host") or as the value of ssh's -l option
 LoginPair(pairs, user) == \E i \in DOMAIN pairs : Len(pairs[i]) = 2 /\ Str(pairs[i][1]) = "-l" /\ Str(pairs[i][2]) = user
-SshOK(args, user, host, cmd) ==
-  LET r == Scan(args, 1, SshSpec, <<>>, <<>>) IN
-  /\ Len(r.ops) = 2 /\ Str(r.ops[2]) = cmd
-  /\ \/ Str(r.ops[1]) = TargetStr(user, host)
-     \/ (user # "" /\ Str(r.ops[1]) = host /\ LoginPair(r.pairs, user))
-ScpOK(args, user, host, src, remote) ==
-  LET r == Scan(args, 1, ScpSpec, <<>>, <<>>) IN
-  Len(r.ops) = 2 /\ Str(r.ops[1]) = src /\ Str(r.ops[2]) = TargetStr(user, host) \o ":" \o remote
+SshScan(args) == Scan(args, 1, SshSpec, <<>>, <<>>)
+SshOperand(args, cmd) == LET r == SshScan(args) IN Len(r.ops) = 2 /\ Str(r.ops[2]) = cmd
+SshIntact(args, user, host) ==
+  LET r == SshScan(args) IN
+  r.ops # <<>> /\ \/ Str(r.ops[1]) = TargetStr(user, host)
+                  \/ (user # "" /\ Str(r.ops[1]) = host /\ LoginPair(r.pairs, user))
+ScpScan(args) == Scan(args, 1, ScpSpec, <<>>, <<>>)
+ScpOperand(args, src) == LET r == ScpScan(args) IN Len(r.ops) = 2 /\ Str(r.ops[1]) = src
+ScpIntact(args, user, host, remote) ==
+  LET r == ScpScan(args) IN Len(r.ops) >= 2 /\ Str(r.ops[2]) = TargetStr(user, host) \o ":" \o remote
 UserPairOK(pairs, user) ==
   user # "" => \E i \in DOMAIN pairs : /\ Len(pairs[i]) = 2 /\ Str(pairs[i][1]) = "--user"
                                         /\ Str(pairs[i][2]) \in {user, "root"}
-DockerOK(args, user, container, home, local, remote) ==
-  LET g == Scan(args, 1, DockerGlobalSpec, <<>>, <<>>) IN
-  /\ g.ops # <<>>
-  /\ LET sub == Str(g.ops[1])
-         rest == Tail(g.ops)
-     IN IF sub = "exec" THEN
-          LET r == Scan(rest, 1, DockerExecSpec, <<>>, <<>>) IN
-          Len(r.ops) >= 2 /\ Str(r.ops[1]) = container /\ UserPairOK(r.pairs, user)
-        ELSE IF sub = "cp" THEN
-          LET r == Scan(rest, 1, DockerCpSpec, <<>>, <<>>) IN
-          Len(r.ops) = 2 /\ Str(r.ops[1]) = local /\ Str(r.ops[2]) = container \o ":" \o home \o "/" \o remote
-        ELSE sub \in {"stop", "start"} /\ Len(rest) = 1 /\ ~IsOpt(rest[1]) /\ Str(rest[1]) = container
+\* the command words the Docker transport runs inside the container (strings.Split(command, " "))
+RECURSIVE StrEach(_)
+StrEach(ws) == IF ws = <<>> THEN <<>> ELSE <<Str(Head(ws))>> \o StrEach(Tail(ws))
+DockerWords(x) == {<<"env">>, <<"id", "-un">>, <<"id", "-gn">>, <<"cmd", "/c", "set">>, x.words}
+\* chown <probed user>:<probed group> <remote name>; the probed names come from the container (the
+\* fake docker echoes the --user value) and the command line is split at blanks, so a name with
+\* blanks yields more words - all of them operands of docker after the container
+IsChown(ws, x) == Len(ws) >= 3 /\ ws[1] = "chown" /\ ws[Len(ws)] = x.remote
+ExpectedWords(ws, x) == ws \in DockerWords(x) \/ IsChown(ws, x)
+DockerSub(args) == LET g == Scan(args, 1, DockerGlobalSpec, <<>>, <<>>) IN
+                   IF g.ops = <<>> THEN [sub |-> "", rest |-> <<>>] ELSE [sub |-> Str(g.ops[1]), rest |-> Tail(g.ops)]
+DockerOperand(args, x) ==
+  LET d == DockerSub(args) IN
+  IF d.sub = "exec" THEN LET r == Scan(d.rest, 1, DockerExecSpec, <<>>, <<>>) IN
+                         Len(r.ops) >= 2 /\ ExpectedWords(StrEach(Tail(r.ops)), x)
+  ELSE IF d.sub = "cp" THEN LET r == Scan(d.rest, 1, DockerCpSpec, <<>>, <<>>) IN Len(r.ops) = 2 /\ Str(r.ops[1]) = x.local
+  ELSE d.sub \in {"stop", "start"} /\ Len(d.rest) = 1 /\ ~IsOpt(d.rest[1])
+DockerIntact(args, x) ==
+  LET d == DockerSub(args) IN
+  IF d.sub = "exec" THEN LET r == Scan(d.rest, 1, DockerExecSpec, <<>>, <<>>) IN
+                         r.ops # <<>> /\ Str(r.ops[1]) = x.host /\ UserPairOK(r.pairs, x.user)
+  ELSE IF d.sub = "cp" THEN LET r == Scan(d.rest, 1, DockerCpSpec, <<>>, <<>>) IN
+                            Len(r.ops) >= 2 /\ Str(r.ops[2]) = x.host \o ":" \o x.home \o "/" \o x.remote
+  ELSE d.rest # <<>> /\ Str(d.rest[1]) = x.host
 
 \* one recorded / modelled command: [prog, args] with the case's plain strings x
-CmdOK(prog, args, x) ==
-  IF prog = "ssh" THEN SshOK(args, x.user, x.host, x.cmd)
-  ELSE IF prog = "scp" THEN ScpOK(args, x.user, x.host, x.src, x.remote)
-  ELSE IF prog = "docker" THEN DockerOK(args, x.user, x.host, x.home, x.local, x.remote)
+CmdOperand(prog, args, x) ==
+  IF prog = "ssh" THEN SshOperand(args, x.cmd)
+  ELSE IF prog = "scp" THEN ScpOperand(args, x.src)
+  ELSE IF prog = "docker" THEN DockerOperand(args, x)
   ELSE FALSE
+CmdIntact(prog, args, x) ==
+  IF prog = "ssh" THEN SshIntact(args, x.user, x.host)
+  ELSE IF prog = "scp" THEN ScpIntact(args, x.user, x.host, x.remote)
+  ELSE IF prog = "docker" THEN DockerIntact(args, x)
+  ELSE FALSE
+CmdOK(prog, args, x) == CmdOperand(prog, args, x) /\ CmdIntact(prog, args, x)
 
 \* ---------------------------------------------------------------- argv construction (the transports)
 \* words of a command line as arguments (strings.Split(command, " "))
@@ -113,19 +140,25 @@ CmdsOf(u, x) ==
   ELSE IF u.proto = "docker" THEN
     {[prog |-> "docker", args |-> DockerExecArgv(u, <<>>, <<>>, << <<"env">> >>)],
      [prog |-> "docker", args |-> DockerExecArgv(u, <<>>, <<>>, << <<"id">>, <<"-", "u", "n">> >>)],
-     [prog |-> "docker", args |-> DockerExecArgv(u, <<>>, <<x.home>>, << <<"agent">>, <<"synchronizer">> >>)],
+     [prog |-> "docker", args |-> DockerExecArgv(u, <<>>, <<x.home>>, << <<x.words[1]>>, <<x.words[2]>> >>)],
      [prog |-> "docker", args |-> DockerCpArgv(u, x.local, x.home, x.remote)],
      [prog |-> "docker", args |-> DockerExecArgv(u, <<"root">>, <<x.home>>, << <<"chown">>, <<"root:root">>, <<x.remote>> >>)]}
   ELSE {}
 
 \* ---------------------------------------------------------------- the input domain
+\* route "parse": the components are placed in a URL string that goes through url.Parse;
+\* route "raw": a url.URL message is built directly from them (what the daemon receives over gRPC).
 UrlOf(form, user, host) ==
   IF form = "ssh" THEN (IF user # <<>> THEN user \o <<"@">> ELSE <<>>) \o host \o <<":", "p">>
   ELSE <<DockerPrefix>> \o (IF user # <<>> THEN user \o <<"@">> ELSE <<>>) \o host \o <<"/", "p">>
+RawUrl(form, user, host) == Url("sync", form, user, host, 0, IF form = "ssh" THEN <<"p">> ELSE <<"/", "p">>, <<>>)
+\* the URL message that reaches validation (or none)
+Message(route, form, user, host, H, W, E) ==
+  IF route = "raw" THEN Ok(RawUrl(form, user, host)) ELSE Parse(UrlOf(form, user, host), "sync", H, W, E)
 
-\* C36 on the model: accepted => every command passes the component as an operand
-ModelOK(form, user, host, H, W, E, x0) ==
-  LET p == Parse(UrlOf(form, user, host), "sync", H, W, E) IN
+\* C36 on the model: accepted => every command passes the component intact as an operand
+ModelOK(route, form, user, host, H, W, E, x0) ==
+  LET p == Message(route, form, user, host, H, W, E) IN
   (p.ok /\ Valid(p.u)) =>
      LET x == [x0 EXCEPT !.user = Str(p.u.user), !.host = Str(p.u.host)] IN
      \A c \in CmdsOf(p.u, x) : CmdOK(c.prog, c.args, x)
